@@ -592,6 +592,96 @@ def flavour_jobs():
     return [(v, fls[i::4]) for v in (3, 4, 5, 6) for i in range(4)]
 
 
+# ------------------------------------------------------------------ (b4) the long names of a version 3 listing
+LONGNAME_APPS = [(supplied, override) for supplied in ('none', 'some', 'all') for override in ('stock', 'sync', 'async', 'sync-returning')]
+
+
+def _longname_app(supplied, override):
+    """an application whose scandir() hands back its own SFTPName objects -- some with a long name of its own --
+    and which may replace the formatter of the long names it did not supply"""
+    ns = {}
+
+    async def scandir(self, path):
+        for i, fn in enumerate((b'alpha', b'beta', b'gamma')):
+            given = supplied == 'all' or (supplied == 'some' and i != 1)
+            yield SFTPName(fn, ('APP-LONG-%s' % fn.decode()).encode() if given else b'',
+                           SFTPAttrs(size=10 + i, permissions=0o100640, uid=7, gid=8, atime=1_600_000_000, mtime=1_600_000_000))
+    ns['scandir'] = scandir
+    if override == 'sync':
+        def format_longname(self, name):
+            name.longname = b'FMT-' + name.filename
+        ns['format_longname'] = format_longname
+    elif override == 'async':
+        async def format_longname(self, name):
+            name.longname = b'FMT-' + name.filename
+        ns['format_longname'] = format_longname
+    elif override == 'sync-returning':
+        def format_longname(self, name):            # an override that also hands the value back does no harm
+            name.longname = b'FMT-' + name.filename
+            return None
+        ns['format_longname'] = format_longname
+    return type('LongApp_%s_%s' % (supplied, override.replace('-', '_')), (SFTPServer,), ns)
+
+
+def longname_worker(job):
+    """READDIR at every version against applications that supply their own names: each entry reaches the client
+    with the filename and attributes the application gave; at version 3 the long name is the application's own
+    where it supplied one, the (possibly replaced) formatter's where it did not"""
+    v, apps = job
+    acc = core.Acc()
+    root = os.path.join(SCRATCH, 'long-%d' % os.getpid())
+    for supplied, override in apps:
+        _mkroot(root)
+        script = [(11, 1, s('d')), (12, 2, s(b'@DIR@')), (12, 3, s(b'@DIR@'))]
+        rk = {'kind': 'longname', 'v': v, 'app': [supplied, override]}
+        try:
+            replies, _h, ended, lexc = server_session(v, root, _longname_app(supplied, override), script)
+        except Livelock as e:
+            acc.violation('serve:livelock:v%d:longname-%s-%s' % (v, supplied, override), str(e), rk)
+            continue
+        viol = []
+        r2 = [p for p in replies if struct.unpack('>I', p[1:5])[0] == 2]
+        got = []
+        if len(r2) != 1 or r2[0][0] != 104:
+            viol.append(('listing-missing', 'READDIR answered %r' % ([(p[0], p[5:40]) for p in r2],)))
+        else:
+            pk = SSHPacket(r2[0][5:])
+            try:
+                n = pk.get_uint32()
+                for _ in range(n):
+                    got.append(SFTPName.decode(pk, v))
+            except Exception as exc:        # pylint: disable=broad-except
+                viol.append(('listing-undecodable', repr(exc)))
+        if not viol:
+            if [g.filename for g in got] != [b'alpha', b'beta', b'gamma']:
+                viol.append(('listing-names', repr([g.filename for g in got])))
+            for i, g in enumerate(got[:3]):
+                given = supplied == 'all' or (supplied == 'some' and i != 1)
+                if (g.attrs.size, (g.attrs.permissions or 0) & 0o7777) != (10 + i, 0o640):     # v4+ carry the file type apart
+                    viol.append(('listing-attrs', '%r: size %r permissions %r' % (g.filename, g.attrs.size, g.attrs.permissions)))
+                if v == 3:
+                    if given:
+                        want = b'APP-LONG-' + g.filename
+                        if g.longname != want:
+                            viol.append(('longname-replaced', 'the application supplied %r for %r; the client received %r' % (want, g.filename, g.longname)))
+                    elif override != 'stock':
+                        if g.longname != b'FMT-' + g.filename:
+                            viol.append(('longname-formatter-unused', '%r: the application formatter gives %r; the client received %r' % (g.filename, b'FMT-' + g.filename, g.longname)))
+                    elif not g.longname or g.filename not in g.longname:
+                        viol.append(('longname-empty', '%r: long name %r' % (g.filename, g.longname)))
+        if lexc:
+            viol.append(('loop-exception', repr(lexc[0].get('exception') or lexc[0].get('message'))[:200]))
+        acc.add(core.digest((v, supplied, override, tuple((g.filename, g.longname if v == 3 else None) for g in got))), transitions=len(script))
+        for k, d in viol[:4]:
+            acc.violation('serve:%s:v%d:longname-%s-%s' % (k, v, supplied, override), d, rk)
+    shutil.rmtree(root, ignore_errors=True)
+    return acc
+
+
+def longname_jobs():
+    return [(v, LONGNAME_APPS[i::2]) for v in (3, 4, 5, 6) for i in range(2)]
+
+
 def _mkroot(root):
     shutil.rmtree(root, ignore_errors=True)
     os.makedirs(os.path.join(root, 'd'))
@@ -956,6 +1046,7 @@ def main(tier, seed):
     acc.merge(core.pmap(errmap_worker, [3, 4, 5, 6]))
     acc.merge(core.pmap(refusing_worker, [(v, APP_METHODS[i::4]) for v in (3, 4, 5, 6) for i in range(4)]))
     acc.merge(core.pmap(flavour_worker, flavour_jobs()))
+    acc.merge(core.pmap(longname_worker, longname_jobs()))
     n_b = acc.evaluations - n_a
     cj = []
     for v, fields in ((3, V3_FIELDS), (4, V4_FIELDS), (5, V5_FIELDS), (6, V6_FIELDS)):
@@ -1001,6 +1092,9 @@ def replay(rep):
         print(json.dumps(v[:4], indent=1, default=repr))
     elif r['kind'] == 'flavour':
         v = flavour_worker((r['v'], [r['fl']])).violations
+        print(json.dumps(v[:4], indent=1, default=repr))
+    elif r['kind'] == 'longname':
+        v = longname_worker((r['v'], [tuple(r['app'])])).violations
         print(json.dumps(v[:4], indent=1, default=repr))
     elif r['kind'] == 'errmap':
         v = errmap_worker(r['v']).violations
